@@ -127,8 +127,9 @@ REVERTS = [
     ("F3", "fix: ordered.Unmarshal does not treat the empty key", ["C16", "C03"]),
     ("F4", "fix: interpolateMap no longer interpolates renamed keys twice", ["C12", "C04"]),
     ("F5", "fix: env interpolation reaches the cache settings", ["C04"]),
-    ("F6", "fix: env interpolation reaches a matrix adjustment's skip", ["C04"]),
+    ("F6", "fix: env interpolation reaches a matrix adjustment", ["C04"]),
     ("F8", "fix: a matrix without setup", ["C09", "C02"]),
+    ("F12", "fix: interpolating an ordered map no longer drops", ["C04"]),
 ]
 
 
